@@ -7,8 +7,9 @@ From Ford Require Import Base.Str Gen.LinkTypes Out.Links.
    unless two entities share a URL), plain text, or an exception *)
 Inductive ires := ILink (cands : list nat) | IPlain | IErr.
 
-Definition mk_ent (n : str) (attrs : list (str * aval)) (par : option nat) (u : bool) : ent :=
-  {| e_name := n; e_attrs := attrs; e_parent := par; e_has_url := u |}.
+Definition mk_ent (n : str) (attrs : list (str * aval)) (par : option nat) (u own v ip : bool) : ent :=
+  {| e_name := n; e_attrs := attrs; e_parent := par; e_has_url := u;
+     e_owns_page := own; e_visible := v; e_iface_proc := ip |}.
 Definition mk_ref (n : str) (k c ck : option str) : ref :=
   {| r_name := n; r_kind := k; r_child := c; r_ckind := ck |}.
 
